@@ -64,6 +64,15 @@ class VAny(Val):
         return f'VAny({self.t})'
 
 
+class VTagged(Val):
+    """Either a specific sentinel object (when `tag` holds) or the scalar `val`."""
+
+    def __init__(self, tag, sentinel, val):
+        self.tag = tag            # z3 Bool
+        self.sentinel = sentinel  # VObj
+        self.val = val            # VAny
+
+
 class VKind(Val):
     """A class object used as a dtype kind."""
 
